@@ -801,4 +801,175 @@ theorem clean_rounds {s : St} (h : Inv s) (hc : Clean s) (n : Nat) (hn : s.inbox
   · rw [hd, hid]; simp [St.replyTag, hr]
 
 
+/-! ## drops -/
+
+/-- a drop touches neither the request map nor the transport -/
+theorem drop_frame (s : St) (f : Fid) : (s.drop f).slots = s.slots ∧ (s.drop f).inbox = s.inbox ∧
+    (s.drop f).closed = s.closed ∧ (s.drop f).sent = s.sent ∧ (s.drop f).delivered = s.delivered := by
+  unfold St.drop
+  split
+  · simp
+  · split <;> (try split) <;> simp [St.withPc, releaseRx_eq]
+
+theorem drop_fut (s : St) (f g : Fid) :
+    findFut (s.drop f).futs g = if g = f then (findFut s.futs f).map (fun x => if x.isLive then { x with pc := .dropped } else x)
+      else findFut s.futs g := by
+  unfold St.drop
+  rw [St.fut_eq]
+  split
+  · rename_i hf
+    by_cases hg : g = f <;> simp [hg, hf]
+  · rename_i fu hf
+    split <;> (try split) <;> rename_i hpc <;>
+      (try simp only [St.withPc, releaseRx_eq, findFut_setPc]) <;> by_cases hg : g = f <;>
+      simp [hg, hf, hpc, Fut.isLive] <;> (cases fu; simp_all)
+
+theorem mem_live_iff {s : St} (h : Inv s) {fu : Fut} :
+    fu ∈ s.live ↔ findFut s.futs fu.fid = some fu ∧ fu.isLive = true := by
+  rw [St.live_eq, List.mem_filter]
+  constructor
+  · rintro ⟨h1, h2⟩; exact ⟨h.find h1, h2⟩
+  · rintro ⟨h1, h2⟩; exact ⟨findFut_mem h1, h2⟩
+
+/-- the live futures after a drop are the live futures before, minus the dropped one -/
+theorem drop_live {s : St} (f : Fid) (h : Inv s) {fu : Fut} : fu ∈ (s.drop f).live ↔ fu ∈ s.live ∧ fu.fid ≠ f := by
+  rw [mem_live_iff (drop_inv f h), mem_live_iff h, drop_fut]
+  by_cases hg : fu.fid = f
+  · simp only [hg, if_true, ne_eq, not_true_eq_false, and_false, iff_false, not_and, Option.map_eq_some_iff]
+    rintro ⟨a, ha, he⟩ hl
+    split at he
+    · rw [← he] at hl; simp [Fut.isLive] at hl
+    · rename_i hna; rw [he] at hna; exact hna hl
+  · simp [hg]
+
+
+/-- `Clean` only looks at the transport, the request map and the live futures -/
+theorem clean_of_frame {s s' : St} (hc : Clean s) (h1 : s'.closed = s.closed) (h2 : s'.inbox = s.inbox)
+    (h3 : s'.slots = s.slots) (h4 : ∀ fu ∈ s'.live, fu ∈ s.live) : Clean s' := by
+  obtain ⟨c1, c2, c3, c4⟩ := hc
+  have hslot : s'.slot = s.slot := by funext id; simp [St.slot, h3]
+  refine ⟨by rw [h1]; exact c1, ?_, by rw [h2]; exact c3, ?_⟩
+  · intro m hm
+    rw [h2] at hm
+    rw [hslot]; exact c2 m hm
+  · intro fu hfu
+    have := c4 fu (h4 fu hfu)
+    simpa [St.reply, hslot, h2] using this
+
+theorem clean_drop {s : St} (f : Fid) (h : Inv s) (hc : Clean s) : Clean (s.drop f) := by
+  obtain ⟨h1, h2, h3, _, _⟩ := drop_frame s f
+  exact clean_of_frame hc h3 h2 h1 (fun fu hfu => ((drop_live f h).mp hfu).1)
+
+theorem drops_inv (ds : List Fid) {s : St} (h : Inv s) : Inv (ds.foldl St.drop s) := by
+  induction ds generalizing s with
+  | nil => exact h
+  | cons f ds ih => exact ih (drop_inv f h)
+
+theorem drops_clean (ds : List Fid) {s : St} (h : Inv s) (hc : Clean s) : Clean (ds.foldl St.drop s) := by
+  induction ds generalizing s with
+  | nil => exact hc
+  | cons f ds ih => exact ih (drop_inv f h) (clean_drop f h hc)
+
+theorem drops_live (ds : List Fid) {s : St} (h : Inv s) {fu : Fut} :
+    fu ∈ (ds.foldl St.drop s).live ↔ fu ∈ s.live ∧ fu.fid ∉ ds := by
+  induction ds generalizing s with
+  | nil => simp
+  | cons f ds ih =>
+    simp only [List.foldl_cons, List.mem_cons, not_or]
+    rw [ih (drop_inv f h), drop_live f h]
+    constructor
+    · rintro ⟨⟨a, b⟩, c⟩; exact ⟨a, b, c⟩
+    · rintro ⟨a, b, c⟩; exact ⟨⟨a, b⟩, c⟩
+
+/-! ## after a message that fails phase 1 -/
+
+/-- the state after `f` took the bad message `m` off the transport is clean provided the rest of the
+transport and the other live futures are -/
+theorem clean_after_bad {s : St} {f : Fid} {fu : Fut} {m : Msg} {rest : List Msg} (h : Inv s)
+    (hf : findFut s.futs f = some fu) (hr : Reads s f fu) (hi : s.inbox = m :: rest) (hb : Bad s m)
+    (hopen : s.closed = false)
+    (hrest : ∀ m' ∈ rest, m'.p2 = true ∧ m'.id.bind s.slot = some .pending)
+    (hnodup : (rest.map (·.id)).Nodup)
+    (hothers : ∀ g ∈ s.live, g.fid ≠ f → (({ s with inbox := rest } : St).reply g.id).map (·.p2) = some true) :
+    Clean (s.poll f) := by
+  have hinv' := poll_inv f h
+  have e := poll_bad_msg h hf hr hi hb
+  refine ⟨by rw [e]; exact hopen, ?_, by rw [e]; exact hnodup, ?_⟩
+  · rw [e]; exact hrest
+  · intro g hg
+    have hg' := (mem_live_iff hinv').mp hg
+    rw [e] at hg'
+    simp only [findFut_setPc_some] at hg'
+    rcases hg' with ⟨⟨hgf, a, _, ha⟩ | ⟨hgf, hfg⟩, hl⟩
+    · rw [ha] at hl; simp [Fut.isLive] at hl
+    · have := hothers g ((mem_live_iff h).mpr ⟨hfg, hl⟩) hgf
+      rw [e]; exact this
+
+/-! ## closed transport: single polls and sends -/
+
+theorem closed_poll_result {s : St} {f : Fid} {fu : Fut} (h : Inv s) (hc : s.closed = true) (he : s.inbox = [])
+    (hf : findFut s.futs f = some fu) (hl : fu.isLive = true) (ho : s.rxOwner = some f ∨ s.rxOwner = none) :
+    findFut (s.poll f).futs f = some { fu with pc := .done (parkedRes (s.slot fu.id)) } := by
+  have hruns : Runs s f := ⟨fu, hf, hl, ho⟩
+  apply poll_cases (motive := fun s' => findFut s'.futs f = some { fu with pc := .done (parkedRes (s.slot fu.id)) }) s f h
+  · intro hn; exact absurd hruns hn
+  · intro _ _ _ hn; exact absurd hruns hn
+  · intro fu' b hf' _ _ hh hb
+    rw [hf] at hf'; cases hf'
+    have hfuel : s.inbox.length + 2 = (s.inbox.length + 1) + 1 := rfl
+    obtain ⟨sl, _, hiter⟩ := iter_closed (s := { s with rxOwner := some f }) (f := f) hh.1.las hc he hb
+    rw [hfuel, runHolding_succ, hiter]
+    simp [St.finish, releaseRx_eq, St.withPc, findFut_setPc, hf, St.slot_eq]
+
+theorem closed_send {s : St} (h : Inv s) (hc : s.closed = true) (b : Bool) :
+    s.send b = ({ s with nextId := s.nextId + 1 }, .sendErr) := by
+  have hr := h.1.closedRpc hc
+  unfold St.send
+  simp only [hr, Option.isSome_none, Bool.false_eq_true, if_false, hc, if_true]
+  split <;> rfl
+
+/-! ## a new request in a usable session -/
+
+theorem open_send {s : St} (h : Inv s) (hr : s.rpc = none) (hc : s.closed = false) (hg : s.gateOpen = true) :
+    s.send true = ({ s with nextId := s.nextId + 1, slots := s.slots ++ [(s.nextId + 1, .pending)],
+                            sent := s.sent ++ [s.nextId + 1],
+                            futs := s.futs ++ [{ fid := s.nextFid, id := s.nextId + 1, pc := .start }],
+                            nextFid := s.nextFid + 1 }, .sendOk s.nextFid (s.nextId + 1)) ∧
+    (s.nextId + 1) ∉ s.sent ∧ (∀ fu ∈ s.futs, fu.id ≠ s.nextId + 1 ∧ fu.fid ≠ s.nextFid) ∧
+    findSlot s.slots (s.nextId + 1) = none ∧ (s.send true).1.slot (s.nextId + 1) = some .pending := by
+  have e : s.send true = (({ s with
+      nextId := s.nextId + 1, slots := s.slots ++ [(s.nextId + 1, .pending)], sent := s.sent ++ [s.nextId + 1],
+      futs := s.futs ++ [{ fid := s.nextFid, id := s.nextId + 1, pc := .start }],
+      nextFid := s.nextFid + 1 } : St), .sendOk s.nextFid (s.nextId + 1)) := by
+    unfold St.send
+    simp [hr, hc, hg, St.register]
+  have h1 : (s.nextId + 1) ∉ s.sent := fun hm => by have := h.1.sentLe _ hm; omega
+  have h3 : findSlot s.slots (s.nextId + 1) = none := by
+    cases hs : findSlot s.slots (s.nextId + 1) with
+    | none => rfl
+    | some sl => have := h.1.keysLe _ _ hs; omega
+  refine ⟨e, h1, ?_, h3, ?_⟩
+  · intro fu hfu
+    constructor
+    · intro he; apply h1; rw [← h.1.idsSent, ← he]; exact List.mem_map.mpr ⟨fu, hfu, rfl⟩
+    · intro he
+      have := h.1.fidLt fu.fid (List.mem_map.mpr ⟨fu, hfu, rfl⟩)
+      rw [he] at this; exact Nat.lt_irrefl _ this
+  · rw [e]; simp [St.slot_eq, findSlot_append, h3]
+
+
+/-- dropping the lock owner hands the lock to the first waiter (or frees it) -/
+theorem drop_owner {s : St} {f : Fid} (h : Inv s) (ho : s.rxOwner = some f) :
+    (s.drop f).rxOwner = s.rxQueue.head? ∧ (s.drop f).rxQueue = s.rxQueue.tail ∧ (s.drop f).rxOwner ≠ some f := by
+  obtain ⟨fu, hf, hpc⟩ := h.2.ownOk f ho (by simp)
+  have h12 : (s.drop f).rxOwner = s.rxQueue.head? ∧ (s.drop f).rxQueue = s.rxQueue.tail := by
+    unfold St.drop
+    rw [St.fut_eq, hf]
+    rcases hpc with hpc | hpc <;> simp [hpc, ho, St.withPc, releaseRx_eq]
+  refine ⟨h12.1, h12.2, ?_⟩
+  rw [h12.1]
+  intro he
+  have hm : f ∈ s.rxQueue := List.mem_of_mem_head? (by rw [he]; rfl)
+  exact (h.2.qOk f hm).2.1 ho
+
 end Session
